@@ -41,7 +41,9 @@ def split_message(rng, header, data, seq0=0, drop_last=False, own_tx=False, fixe
         ll = LLHeader().with_signature(Frame.signature).with_size((hl.length + 5) & 0xFFFF).with_type(6).with_flags(0xC0)
         out = []
         for i, f in enumerate(Frame(ll, hl).handle_tx_fragmentation()):
-            f.ll_header = f.ll_header.with_flags(int(f.ll_header.flags) | (((seq0 + i) % 4) << 2))
+            # the Retransmit bit says "this is a second copy"; a copy whose first transmission never arrived is the only one
+            rt = 2 if rng.random() < 0.2 else 0
+            f.ll_header = f.ll_header.with_flags(int(f.ll_header.flags) | (((seq0 + i) % 4) << 2) | rt)
             f.ll_header = f.ll_header.with_crc8(CRC8(f.ll_header.serialize()[2:6]).digest())
             out.append(f.serialize())
         return out[:-1] if drop_last and len(out) > 1 else out
@@ -53,7 +55,7 @@ def split_message(rng, header, data, seq0=0, drop_last=False, own_tx=False, fixe
     pieces = [ser[a:b] for a, b in zip(pts, pts[1:])]
     out = []
     for i, p in enumerate(pieces):
-        fl = (0x40 if i == 0 else 0) | (0x80 if i == len(pieces) - 1 else 0) | (((seq0 + i) % 4) << 2)
+        fl = (0x40 if i == 0 else 0) | (0x80 if i == len(pieces) - 1 else 0) | (((seq0 + i) % 4) << 2) | (2 if rng.random() < 0.2 else 0)
         if i == 0:
             out.append(build_frame_bytes(int.from_bytes(p[:4], "little"), p[4:], fl))
         else:
